@@ -444,3 +444,160 @@ def spec_heap(spec):
         out.append({'type': list(e['type'].encode('utf8')), 'name': list(seen['name']['vals'][0].encode('utf8')),
                     'uuid': list(uuidmod.UUID(e['uuid']).bytes_le), 'attrs': attrs})
     return {'elems': out}
+
+
+# ----------------------------------------------------------------------------- argument forms
+
+# forms the code REJECTS today (established on the unchanged tree; outside the domain, recorded in the evidence)
+REJECTED_FORMS = [
+    "Element.parse(file) with the file positioned after other data (absolute seek to the header length): ValueError / TokenSyntaxError",
+    "Element.parse(exhausted file): ValueError 'not a DMX file'; Element.parse(bytes): AttributeError",
+    "elem[name] = generator / empty list / Time / None / int subclass: TypeError (no type can be deduced)",
+    "Attribute.int(name, tuple|range|generator): kept as a scalar, export raises ValueError",
+    "elem[name] = bytearray|memoryview: accepted but deduced as an INTEGER array, not BINARY",
+    "export_kv2(file, fmt_name, fmt_ver, flat): flat/unicode/cull_uuid are keyword-only (TypeError)",
+    "the same Attribute object installed under two keys of ONE element: both get the last key's name, the file then holds two attributes with one name",
+    "Element(name=<non-str>) / elem['name'] = [..]: export raises (name is written as a string scalar)",
+]
+
+
+def build_forms(spec, rng, log):
+    """The same graph as build(spec), constructed through randomly chosen *other accepted argument forms*:
+    arrays from list / tuple / generator / iterator, via Attribute.array or item assignment; scalars from raw
+    values, mutable math twins (Vec/Angle/Matrix), Attribute objects made by the classmethods; bytes vs
+    bytearray; name via constructor / property / item; uuid positional / keyword.  Mutable inputs that the
+    API copies are mutated afterwards (must have no effect).  Returns (elements, check) where check() returns a
+    description of any input argument that was changed by construction/export, else None."""
+    from srctools import dmx
+    from srctools.dmx import Element, Attribute, ValueType, StubElement, NULL, Color, Time, Vec2, Vec4, Quaternion
+    from srctools.math import FrozenVec, FrozenAngle, Matrix, Vec, Angle
+    elems = []
+    for e in spec['elems']:
+        u = uuidmod.UUID(e['uuid'])
+        form = rng.randrange(4)
+        log('name-form:%d' % form)
+        if form == 0:
+            el = Element(e['name'], e['type'], u)
+        elif form == 1:
+            el = Element('tmp', type=e['type'], uuid=u); el.name = e['name']
+        elif form == 2:
+            el = Element(name='tmp', type=e['type'], uuid=u); el['name'] = e['name']
+        else:
+            el = Element(e['name'], e['type'], uuid=u)
+        elems.append(el)
+    stubs = {}
+    watched = []     # (description, object, snapshot, snapshot function)
+
+    def watch(desc, obj, snap):
+        watched.append((desc, obj, snap(obj), snap))
+
+    def base(t, v):
+        if t == 'ELEMENT':
+            if v[0] == 'n': return NULL
+            if v[0] == 's':
+                if v[1] not in stubs: stubs[v[1]] = StubElement.stub(uuidmod.UUID(v[1]))
+                return stubs[v[1]]
+            return elems[v[1]]
+        if t == 'INTEGER': return int(v)
+        if t == 'FLOAT': return b2f(v)
+        if t == 'BOOL': return bool(v)
+        if t == 'STRING': return v
+        if t == 'BINARY': return bytes(v)
+        if t == 'TIME': return Time(v / 10000.0)
+        if t == 'COLOR': return Color(*v)
+        fs = [b2f(x) for x in v]
+        if t == 'VEC2': return Vec2(*fs)
+        if t == 'VEC3': return FrozenVec(*fs)
+        if t == 'VEC4': return Vec4(*fs)
+        if t == 'ANGLE': return FrozenAngle(*fs)
+        if t == 'QUATERNION': return Quaternion(*fs)
+        m = Matrix()
+        for i in range(3):
+            for j in range(3):
+                m[i, j] = fs[3 * i + j]
+        return m.freeze()
+
+    def twin(t, obj):
+        """the mutable twin of a frozen math value (watched: must not be changed), or the value itself."""
+        if t == 'VEC3': tw = Vec(obj)
+        elif t == 'ANGLE': tw = Angle(obj)
+        elif t == 'MATRIX': tw = obj.thaw() if hasattr(obj, 'thaw') else Matrix(obj)
+        else: return obj
+        watch(f'mutable {t} twin', tw, lambda o: repr(o))
+        return tw
+
+    for e, el in zip(spec['elems'], elems):
+        for a in e['attrs']:
+            t, name = a['t'], a['name']
+            vt = getattr(ValueType, t)
+            vals = [base(t, v) for v in a['vals']]
+            if a['arr']:
+                if rng.random() < 0.5:
+                    vals = [twin(t, v) if rng.random() < 0.5 else v for v in vals]
+                forms = ['array-list', 'array-tuple', 'array-gen', 'array-iter']
+                if vals and t != 'TIME':
+                    forms += ['item-list', 'item-tuple']
+                form = rng.choice(forms)
+                log('array-form:' + form)
+                if form == 'array-gen':
+                    el[name] = Attribute.array(name, vt, (x for x in vals))
+                elif form == 'array-iter':
+                    el[name] = Attribute.array(name, vt, iter(vals))
+                else:
+                    arg = tuple(vals) if form.endswith('tuple') else list(vals)
+                    watch(f'{form} argument of {name!r}', arg, lambda o: [id(x) if isinstance(x, Element) else repr(x) for x in o])
+                    if form.startswith('array'):
+                        el[name] = Attribute.array(name, vt, arg)
+                    else:
+                        el[name] = arg
+                    if isinstance(arg, list) and t not in ('ELEMENT',):
+                        # the API copies: a later change of the caller's list must not reach the element
+                        keep = list(arg)
+                        arg.append(arg[0] if arg else base(t, gen_val(rng, t, ['a'], ['0' * 32], 1)))
+                        watched[-1] = (watched[-1][0], arg, watched[-1][3](arg), watched[-1][3])
+                        if [repr(x) for x in el[name]._value] != [repr(dmx.CONVERSIONS[vt](x)) for x in keep]:
+                            return elems, (lambda d=f'{form}: changing the argument list afterwards changed attribute {name!r}': d)
+            else:
+                v = vals[0]
+                forms = ['item-raw'] if t != 'TIME' else []
+                if t in ('VEC3', 'ANGLE', 'MATRIX'):
+                    forms.append('item-twin')
+                if t not in ('ELEMENT', 'MATRIX'):
+                    forms += ['classmethod', 'classmethod-splat']
+                if t == 'BINARY':
+                    forms.append('bytearray')
+                form = rng.choice(forms)
+                log('scalar-form:' + form)
+                if form == 'item-raw':
+                    el[name] = v
+                elif form == 'item-twin':
+                    tw = twin(t, v)
+                    el[name] = tw
+                elif form == 'bytearray':
+                    ba = bytearray(v)
+                    watch(f'bytearray of {name!r}', ba, bytes)
+                    el[name] = Attribute.binary(name, ba)
+                else:
+                    cm = {'INTEGER': 'int', 'FLOAT': 'float', 'BOOL': 'bool', 'STRING': 'string', 'BINARY': 'binary',
+                          'TIME': 'time', 'COLOR': 'color', 'VEC2': 'vec2', 'VEC3': 'vec3', 'VEC4': 'vec4',
+                          'ANGLE': 'angle', 'QUATERNION': 'quaternion'}[t]
+                    f = getattr(Attribute, cm)
+                    if form == 'classmethod-splat' and t in ('COLOR', 'VEC2', 'VEC3', 'VEC4', 'ANGLE', 'QUATERNION'):
+                        attr = f(name, *list(v))
+                    elif t == 'TIME' and rng.random() < 0.5:
+                        attr = f(name, v.value)
+                    elif t in ('VEC3', 'ANGLE') and rng.random() < 0.5:
+                        attr = f(name, twin(t, v))
+                    else:
+                        attr = f(name, v)
+                    el[name] = attr
+    def check():
+        for desc, obj, snap0, snap in watched:
+            try:
+                now = snap(obj)
+            except Exception as ex:
+                now = f'{type(ex).__name__}: {ex}'
+            if now != snap0:
+                return f'{desc} was changed: {str(snap0)[:80]} -> {str(now)[:80]}'
+        return None
+    return elems, check
